@@ -1,23 +1,42 @@
 import PqModel.ConvertProofs
 import PqModel.ConvertAdded
 import PqModel.ConvertAddedTree
+import PqModel.ConvertFixed
 
 /-! # C12 — Reading through a different but compatible schema only adds or drops columns
 
-`convertRow` is the MIRROR of `convert.go` (level tables per target column, sibling-borrowed
-structure for added columns); `projN` is the SPEC projection of a value tree; `shred` is the Dremel
+`convertRow` is the MIRROR of `convert.go` as it stands after repair fa179c0 (level tables per target
+column, sibling-borrowed structure for added columns, then `zeroAtMax`: a null that the tables made
+present becomes the typed zero); `convertRow_before_fix` is the mirror before that repair (= the
+first stage `convN`), kept for the regression facts `*_before_fix`; `projN` is the SPEC projection of a value tree; `shred` is the Dremel
 shredding of `PqModel.Dremel` on the name-erased schema. -/
 namespace PqModel.Props.C12
 open PqModel.Dremel PqModel.Convert
 
+/-- BEFORE repair fa179c0 (regression fact, and the first stage of the mirror as it stands):
+    deleting and permuting fields at any depth and turning required fields into optional ones,
+    the level tables of `Convert` give exactly the shredded projection of the value. -/
+theorem convert_shred_before_fix (src tgt : PNode) (v : Val)
+    (hsub : subN src tgt = true) (hwf : wfN (eraseN src) = true) (hconf : confN (eraseN src) v = true) :
+    convertRow_before_fix src tgt (shred src v) = shred tgt (projN src tgt v) :=
+  main_convN tgt .req lv0 src v 0 none hsub hwf hconf (Nat.le_refl _) rfl rfl
+
 /-- Deleting and permuting fields at any depth and turning required fields into optional ones:
-    converting the shredded row with the level tables of `Convert` gives exactly the shredded
+    converting the shredded row with the mirror of `Convert` as it stands (level tables, zero
+    fix-up, typed zero for nulls at a column's maximal definition level) gives exactly the shredded
     projection of the value — every target column carries the source values and nesting,
-    re-expressed against the target's levels. All schemas, all conforming values. -/
+    re-expressed against the target's levels. All schemas, all conforming values. (The last stage
+    finds nothing to do here: `zeroAtMax_shred` + `conf_projN`, the shredding of a value that
+    conforms to its schema holds no null at a column's maximal definition level.) -/
 theorem convert_shred (src tgt : PNode) (v : Val)
     (hsub : subN src tgt = true) (hwf : wfN (eraseN src) = true) (hconf : confN (eraseN src) v = true) :
     convertRow src tgt (shred src v) = shred tgt (projN src tgt v) :=
-  main_convN tgt .req lv0 src v 0 none hsub hwf hconf (Nat.le_refl _) rfl rfl
+  convertRow_shred src tgt v hsub hwf hconf
+
+-- OPEN: convert_shred for targets that also turn optional fields into required ones
+--   (`optional -> required`: a null becomes the zero value). Since repair fa179c0 the mirror agrees
+--   with the spec on such targets (`narrowing_null_becomes_zero` is the former counterexample; L1
+--   and L2 cover random narrowed targets), but `main_convN` is proved for `rpOk` (no narrowing) only.
 
 /-- non-vacuity: delete field 3, permute, widen 5; nested repeated group, nulls and values -/
 example :
@@ -78,8 +97,12 @@ any other added shape, no leaf sibling below an optional or repeated group). -/
 theorem convert_shred_added_partial (src tgt : PNode) (v : Val)
     (hadd : addN 0 src tgt = true) (hwf : wfN (eraseN src) = true) (hconf : confN (eraseN src) v = true) :
     canon (maxDefsN tgt 0) (convertRow src tgt (shred src v)) =
+      canon (maxDefsN tgt 0) (zeroAtMax (maxDefsN tgt 0) (shred tgt (projN src tgt v))) := by
+  have h : canon (maxDefsN tgt 0) (convertRow_before_fix src tgt (shred src v)) =
       canon (maxDefsN tgt 0) (shred tgt (projN src tgt v)) :=
-  main_addN tgt .req lv0 src v 0 none hadd idLv0 hwf hconf (Nat.le_refl _)
+    main_addN tgt .req lv0 src v 0 none hadd idLv0 hwf hconf (Nat.le_refl _)
+  simp only [convertRow]
+  rw [canon_zeroAtMax, canon_zeroAtMax, h]
 
 /-- non-vacuity: inside a repeated group `2 {5 required, 6 optional}` the target adds an optional
     leaf 7 and a repeated group 8 {required 9} (closest sibling: the required leaf 5), at the root
@@ -195,14 +218,37 @@ theorem f19_required_without_leaf_sibling_under_optional :
 
 /-! ### other targets the code accepts -/
 
-/-- `optional → required` below an optional ancestor: a null becomes an entry at the maximal
-    definition level whose payload is still null (a writer stores the zero value). The level
-    tables themselves are right (`agrees` only differs in that payload). -/
-theorem narrowing_null_at_max_level :
+/-- BEFORE repair fa179c0 (regression fact): `optional → required` below an optional ancestor, a
+    null became an entry at the maximal definition level whose payload was still null (an untyped
+    value; for FIXED_LEN_BYTE_ARRAY the writers rejected it). -/
+theorem narrowing_null_at_max_level_before_fix :
     let src : PNode := .group (.cons 1 .opt (.group (.cons 2 .opt (.group (.cons 3 .req .leaf .nil)) .nil)) .nil)
     let tgt : PNode := .group (.cons 1 .opt (.group (.cons 2 .req (.group (.cons 3 .req .leaf .nil)) .nil)) .nil)
     let v : Val := .struct [.some (.struct [.none])]
-    convertRow src tgt (shred src v) = [[⟨none, 0, 1⟩]] ∧ shred tgt (projN src tgt v) = [[⟨some 0, 0, 1⟩]] := by decide
+    convertRow_before_fix src tgt (shred src v) = [[⟨none, 0, 1⟩]] ∧ shred tgt (projN src tgt v) = [[⟨some 0, 0, 1⟩]] := by decide
+
+/-- After repair fa179c0 the same row is the shredded projection: the null that the tables made
+    present is the typed zero of the column. -/
+theorem narrowing_null_becomes_zero :
+    let src : PNode := .group (.cons 1 .opt (.group (.cons 2 .opt (.group (.cons 3 .req .leaf .nil)) .nil)) .nil)
+    let tgt : PNode := .group (.cons 1 .opt (.group (.cons 2 .req (.group (.cons 3 .req .leaf .nil)) .nil)) .nil)
+    let v : Val := .struct [.some (.struct [.none])]
+    convertRow src tgt (shred src v) = shred tgt (projN src tgt v) ∧ agrees src tgt v = true := by decide
+
+/-- the second stage in general: whatever the first stage yields, no column of the converted row
+    holds a null at its maximal definition level where that level is reached -/
+theorem converted_row_has_no_null_at_max (td : Nat) (c : List Triple) :
+    ∀ t ∈ zeroCol td c, t.val = none → t.dfn ≠ td := by
+  intro t ht hn
+  simp only [zeroCol, List.mem_map] at ht
+  obtain ⟨u, _, rfl⟩ := ht
+  by_cases h : (u.val.isNone && u.dfn == td) = true
+  · simp [h] at hn
+  · have h' : (u.val.isNone && u.dfn == td) = false := by
+      cases hh : (u.val.isNone && u.dfn == td) <;> simp_all
+    simp only [h', Bool.false_eq_true, if_false] at hn ⊢
+    intro hd
+    simp [hn, hd] at h'
 
 /-- `repeated → optional` is accepted: a two-element list becomes two entries with repetition
     level 0 in one row of a non-repeated column (a malformed row; written to a file it is two rows). -/
